@@ -61,6 +61,7 @@ Example C01c_close_first_inhabited :
   map (fun m => (m_closed m, m_unbound_local m, m_unbound_remote m)) (leaves (fst (run_td h n))) =
   [(1, 1, 1); (1, 1, 1); (1, 1, 1)].
 Proof. cbv zeta. split; [reflexivity|]. split; [eexists; repeat split; reflexivity|reflexivity]. Qed.
+Print Assumptions C01c_close_first_inhabited.
 
 Theorem C01c_unbind_returns_nothing : forall o n, o <> TClose -> snd (deliver o n) = None.
 Proof. exact deliver_unbind_ret. Qed.
